@@ -281,7 +281,18 @@ def run(prog, chk):
                 chk.bad("C14.T6", f, "interrupt-flag-without-mutex", f.where(s.node), "_interrupted is written without holding _interruptMutex: a concurrent interrupt() can be lost")
     st = [s.node for s in q.stores(intr) if intr.r(s.lhs) == "this->_interrupted" and fin.eval_expr(intr, s.rhs, {}) == 1]
     wake = [c for c in q.calls(intr) if re.search(r"_sockets\.interrupt\(\)", intr.r(c))]
-    if st and wake and all(q.precedes_always(intr, st, w) or any(a[0] != "case" for a in []) for w in wake) and all(q.reaches(intr, s, w) for s in st for w in wake):
+    # decision table over the flag's value on entry: whenever the poll is woken, the flag is already set (path correlation through
+    # locals such as `already = _interrupted` is followed by the guard-directed walk)
+    okw = bool(st) and bool(wake)
+    for v0 in (0, 1):
+        for w in wake:
+            _seen, end_, fv = fin.walk_vals(intr, intr.entry, {"this->_interrupted": v0}, stop_at=w)
+            if end_ == "stop":
+                if fv.get("this->_interrupted") != 1:
+                    okw = False
+            elif isinstance(end_, str) and end_.startswith("undetermined"):
+                okw = False
+    if okw and all(q.reaches(intr, s, w) for s in st for w in wake):
         chk.ok("C14.T6", intr, "flag stored before the poll is woken", intr.where(wake[0]), "ORD", evals=2)
     else:
         chk.bad("C14.T6", intr, "wake-before-flag", "%s:%s" % (intr.file, intr.line), "interrupt() must store _interrupted before _sockets.interrupt(): run() woken first finds no flag and goes back to sleep")
